@@ -141,7 +141,7 @@ def regf_roles():
     reg = base_registry([MGR])
     reg.class_fields["Manager"] = dict(MGR_ROLE_FIELDS)
     for c in ROLE_CONTRACTS:
-        reg.contracts[c.target] = c
+        reg.contracts[c.target] = _c13.caller_view(c)
     return reg
 
 
@@ -218,7 +218,7 @@ DCP_CONTRACTS = [
 def regf_dcp():
     reg = base_registry([CON])
     for c in DCP_CONTRACTS:
-        reg.contracts[c.target] = c
+        reg.contracts[c.target] = _c13.caller_view(c)
     reg.boundary_returns["ObserverB.when_fired"] = "obj[DeferredB]"
     return reg
 
@@ -295,7 +295,7 @@ CTR_CONTRACTS = [
 def regf_ctr():
     reg = base_registry([CTR])
     for c in CTR_CONTRACTS:
-        reg.contracts[c.target] = c
+        reg.contracts[c.target] = _c13.caller_view(c)
 
     def as_event(name):
         def fm(it, args, kwargs, fr):
@@ -344,7 +344,7 @@ BOSS_CONTRACTS = [
 def regf_boss():
     reg = base_registry([BOSS])
     for c in BOSS_CONTRACTS:
-        reg.contracts[c.target] = c
+        reg.contracts[c.target] = _c13.caller_view(c)
     return reg
 
 
@@ -459,7 +459,7 @@ MGR_CONTRACTS = [
 def regf_mgr():
     reg = base_registry([MGR])
     for c in ROLE_CONTRACTS[:1] + MGR_CONTRACTS:
-        reg.contracts[c.target] = c
+        reg.contracts[c.target] = _c13.caller_view(c)
     _c13.new_as_boundary(reg, "Connector")
     _c13.new_as_boundary(reg, "TrafficTimer")
     reg.boundary_returns["ReactorB.seconds"] = "real"
